@@ -117,7 +117,7 @@ def gen_case(c, g):
             ops += [dict(op=c.rng.choice(["raw", "full"]), n=i), dict(op="assign", n=i, name=s_, v=v),
                     dict(op="seal", n=i), dict(op="full", n=i)]
     for _ in range(c.rng.randint(3, 9)):
-        k = c.rng.choices(["assign", "meta", "pre", "full", "raw", "seal", "jobpath", "resubmit"], [6, 3, 3, 4, 2, 1, 1, 1])[0]
+        k = c.rng.choices(["assign", "meta", "pre", "full", "raw", "seal", "jobpath", "resubmit", "copy"], [6, 3, 3, 4, 2, 1, 1, 1, 2])[0]
         i = c.rng.randrange(n)
         cls = desc["nodes"][i]["cls"]
         if k == "resubmit":
@@ -125,6 +125,17 @@ def gen_case(c, g):
                 i = c.rng.choice(submitted)
                 ops.append(dict(op="resubmit", n=i, init=c.rng.sample(light, min(len(light), c.rng.choice([0, 1, 2])))))
                 ops.append(dict(op=c.rng.choice(["full", "jobpath"]), n=i))
+            continue
+        if k == "copy":
+            # a modified copy (copyconfig / Config.copy) of a configuration, frozen or not: the original is untouched
+            slots = [(s, kd) for s, kd in SLOTS[cls].items() if kd.rstrip("!") in ("int", "str", "oint", "ostr", "bool", "float")
+                     and s not in READONLY]
+            if slots:
+                s_, kd = c.rng.choice(slots)
+                v = g.value(kd.rstrip("!").lstrip("o") + "!", [])
+                if v is not None:
+                    ops.append(dict(op=c.rng.choice(["copyconfig", "copyconfig", "clone"]), n=i, name=s_, v=v))
+                    ops.append(dict(op=c.rng.choice(["full", "raw"]), n=i))
             continue
         if k == "assign":
             slots = [(s, kd) for s, kd in SLOTS[cls].items() if s not in READONLY and s != "ddd"]
@@ -156,6 +167,9 @@ def gen_case(c, g):
     return dict(desc=desc, ops=ops, n=n)
 
 
+NOT_MODELLED = ("jobpath", "copyconfig", "clone")
+
+
 def g_sop(o):
     k = o["op"]
     if k == "assign":
@@ -184,8 +198,9 @@ def g_sexpect(a):
 
 def g_kcase(k):
     b = k["before"]
-    ops = [o for o in k["ops"] if o["op"] != "jobpath"]
-    ans = [a for o, a in zip(k["ops"], k["answers"]) if o["op"] != "jobpath"]
+    # job-path requests and copies are the identity on the modelled state (the copy is a new object outside the heap)
+    ops = [o for o in k["ops"] if o["op"] not in NOT_MODELLED]
+    ans = [a for o, a in zip(k["ops"], k["answers"]) if o["op"] not in NOT_MODELLED]
     return (f"{{| k_classes := {identgen.g_classes(b['classes'])}; k_heap := {identgen.g_heap(b['nodes'])}; "
             f"k_cache := {identgen.g_cache(b['nodes'])}; k_ops := {glist(g_sop(o) for o in ops)}; "
             f"k_expect := {glist(g_sexpect(a) for a in ans)}; k_final := {identgen.g_heap(k['after']['nodes'])}; "
@@ -222,10 +237,24 @@ def oracle(c, case, r):
     first = {o["n"]: a for o, a in zip(r["ops"][:n], r["answers"][:n])}
     for o, a in zip(r["ops"], r["answers"]):
         k = o["op"]
-        c.count("op:" + k + ("" if k in ("full", "raw", "jobpath", "seal") else (":frozen" if o["n"] in frozen else ":free")))
+        if k not in ("copyconfig", "clone"):
+            c.count("op:" + k + ("" if k in ("full", "raw", "jobpath", "seal") else (":frozen" if o["n"] in frozen else ":free")))
         if k in ("assign", "meta", "pre", "prefrom", "resubmit") and o["n"] in frozen and not a.startswith("rejected:"):
             c.violation(f"C14:attempt-accepted:{k}", f"a {k} attempt on a frozen configuration was not rejected",
                         dict(desc=case["desc"], ops=case["ops"], op=o, answer=a))
+        if k in ("copyconfig", "clone"):
+            c.count("op:" + k + (":frozen" if o["n"] in frozen else ":free"))
+            if a.startswith("copybad:"):
+                c.violation(f"C14:copy-wrong:{a[8:]}", f"{k} of a configuration did not give a fresh modifiable copy with the change",
+                            dict(desc=case["desc"], ops=case["ops"], op=o, answer=a))
+    # a copy (copyconfig, Config.copy) never changes any existing configuration, frozen or not, as long as every
+    # other operation of the history is a request
+    if all(o["op"] in ("copyconfig", "clone", "full", "raw", "jobpath") for o in r["ops"]):
+        strip0 = lambda x: {k: v for k, v in x.items() if k not in ("craw", "cfull")}
+        for i in range(min(len(before), len(after))):
+            if strip0(before[i]) != strip0(after[i]):
+                c.violation("C14:copy-changed-original", "copying a configuration changed an existing configuration",
+                            dict(desc=case["desc"], ops=case["ops"], node=i, before=before[i], after=after[i]))
     last = {o["n"]: a for o, a in zip(r["ops"][-n:], r["answers"][-n:])}
     for i in frozen:
         if i < n and first.get(i) != last.get(i):
